@@ -69,7 +69,10 @@ def run(sc):
         n = sim.node(o["node"])
         if o["op"] == "inject":
             sim.log({"ev": "ptx", "node": o["node"], "id": o["id"], "data": list(o["data"]), "fd": False, "ext": True})
-            sim.inject(n, o["id"], o["data"])
+            if "flags" in o:
+                sim.inject(n, o["id"], o["data"], via_listener=True, flags=o["flags"])
+            else:
+                sim.inject(n, o["id"], o["data"])
             continue
         ca = cas[o["node"]][o["ca"] - 1]
         if o["op"] == "start":
